@@ -506,8 +506,9 @@ fn run_script(seed: u64, n: u64, ev: &mut Evidence) {
                     let connected = matches!(model.mode, Mode::Connected { .. });
                     if let (Some(h), true) = (cur, connected) {
                         let Mode::Connected { outstanding, write_err_armed, partial } = model.mode.clone() else { unreachable!() };
-                        if partial && !matches!(e, Ev::WriteErrNext) {
-                            // generator constraint: nothing else arrives while half a reply is in flight
+                        if partial && !matches!(e, Ev::WriteErrNext | Ev::ReadErr | Ev::Eof) {
+                            // generator constraint: no other frame arrives while half a reply is in flight
+                            // (the connection may break there: the next session must start clean)
                             continue;
                         }
                         let txu = last_request_tx(&h);
@@ -543,8 +544,10 @@ fn run_script(seed: u64, n: u64, ev: &mut Evidence) {
                                     let f = mbap_frame(tx, unit, &reply_for(id));
                                     // first half now; the rest is delivered by the harness right
                                     // after the request has been resolved (i.e. too late)
-                                    h.push(vec![In::Chunk(f[..5].to_vec())]);
-                                    pending_rest = Some((id, world.lock().unwrap().connects, f[5..].to_vec()));
+                                    // inside the header, right after it, or inside the body
+                                    let cut = [5usize, 7, 9][id % 3];
+                                    h.push(vec![In::Chunk(f[..cut].to_vec())]);
+                                    pending_rest = Some((id, world.lock().unwrap().connects, f[cut..].to_vec()));
                                     model.mode = Mode::Connected { outstanding: Some((id, d)), write_err_armed, partial: true };
                                 }
                             }
@@ -668,6 +671,139 @@ fn run_script(seed: u64, n: u64, ev: &mut Evidence) {
     }
 }
 
+/// Back-pressure: more concurrent submitters than queue slots. A blocking sender (Channel future,
+/// CallbackSession) must wait for room and then be served; only FfiChannel may refuse (its call
+/// reports the error and its callback fires with Shutdown). The peer answers everything, after
+/// random delays shorter than the timeouts, so every accepted request must complete Ok with its
+/// own payload, exactly once, and exactly the accepted requests are transmitted.
+fn run_backpressure(seed: u64, n: u64, ev: &mut Evidence) {
+    let mut rng = Rng::sub(seed, 1010, n);
+    let cap = *rng.pick(&[1usize, 1, 2, 3, 4]);
+    let nreq = 2 + rng.usize_below(40);
+    let styles: Vec<Style> = (0..nreq).map(|_| *rng.pick(&ALL_STYLES_API)).collect();
+    let delays: Vec<u64> = (0..nreq).map(|_| *rng.pick(&[0u64, 0, 1, 3, 10])).collect();
+    let yields: Vec<bool> = (0..nreq).map(|_| rng.chance(1, 3)).collect();
+    let (styles2, delays2) = (styles.clone(), delays.clone());
+    let result = run_paused(|| async move {
+        let seq = Seq::default();
+        let (io, handle) = sim_io(vec![], seq.clone());
+        let mut asm = RequestAssembler::new(Framing::Mbap);
+        let seen = Arc::new(Mutex::new(Vec::<u16>::new()));
+        let seen2 = seen.clone();
+        handle.set_responder(Box::new(move |bytes, _| {
+            let mut items = vec![];
+            for f in asm.feed(bytes) {
+                if f.len() < 12 {
+                    continue;
+                }
+                let tx = ((f[0] as u16) << 8) | f[1] as u16;
+                let start = ((f[8] as u16) << 8) | f[9] as u16;
+                seen2.lock().unwrap().push(start);
+                let d = delays2.get(start as usize).copied().unwrap_or(0);
+                if d > 0 {
+                    items.push(In::Delay(Duration::from_millis(d)));
+                }
+                let mut pdu = vec![3u8, 4];
+                pdu.extend_from_slice(&start.to_be_bytes());
+                pdu.extend_from_slice(&(!start).to_be_bytes());
+                items.push(In::Chunk(mbap_frame(tx, f[6], &pdu)));
+            }
+            items
+        }));
+        let (channel, mut sim) = rodbus::verif::client(rodbus::verif::Framing::Mbap, cap, decode_level((0, 0, 0)), None);
+        let task = tokio::spawn(async move { sim.run_session(Box::new(io)).await });
+        channel.enable().await.unwrap();
+        let start = tokio::time::Instant::now();
+        let slots: Vec<Arc<Slot>> = (0..nreq).map(|_| Slot::new(start, seq.clone())).collect();
+        let outcomes = Arc::new(Mutex::new(vec![None; nreq]));
+        let mut subs = vec![];
+        for k in 0..nreq {
+            let (ch, slot, style, outcomes) = (channel.clone(), slots[k].clone(), styles2[k], outcomes.clone());
+            // every submission is its own task: a blocking sender parks without blocking the others
+            subs.push(tokio::spawn(async move {
+                let req = ClientReq::Read { kind: Kind::ReadHolding, start: k as u16, count: 2 };
+                let o = submit(&ch, style, 1, Duration::from_secs(3600), &req, slot).await;
+                outcomes.lock().unwrap()[k] = Some(o);
+            }));
+            if yields[k] {
+                settle().await;
+            }
+        }
+        for s in subs {
+            let _ = tokio::time::timeout(Duration::from_secs(7200), s).await;
+        }
+        for s in &slots {
+            let _ = tokio::time::timeout(Duration::from_secs(7200), s.wait()).await;
+        }
+        settle().await;
+        drop(channel);
+        let _ = tokio::time::timeout(Duration::from_secs(3600), task).await;
+        let comps: Vec<Vec<Completion>> = slots.iter().map(|s| s.completions.lock().unwrap().clone()).collect();
+        let o = outcomes.lock().unwrap().clone();
+        let seen = seen.lock().unwrap().clone();
+        (comps, o, seen)
+    });
+    ev.eval();
+    let rep = json!({"backpressure": true, "n": n, "queue": cap, "styles": styles.iter().map(|s| s.name()).collect::<Vec<_>>(), "delays": delays});
+    let (comps, outcomes, seen) = match result {
+        Err(p) => {
+            ev.violation(format!("client_panic:{}", crate::util::panic_site(&p)), format!("client panicked: {p}"), rep);
+            return;
+        }
+        Ok(x) => x,
+    };
+    ev.count("backpressure_sessions", 1);
+    let mut accepted = 0usize;
+    for k in 0..nreq {
+        ev.count("requests_tracked", 1);
+        let style = styles[k];
+        let refused = matches!(outcomes[k], Some(CallOutcome::FfiFull) | Some(CallOutcome::FfiClosed));
+        if comps[k].len() != 1 {
+            ev.violation(
+                format!("backpressure:completed_{}_times:{}", comps[k].len(), style.name()),
+                format!("request #{k} of {nreq} ({}, queue {cap}) completed {} times", style.name(), comps[k].len()),
+                rep.clone(),
+            );
+            continue;
+        }
+        let got = comps[k][0].res.clone();
+        if refused {
+            ev.count("backpressure_ffi_refused_queue_full", 1);
+            if got.class() != "shutdown" {
+                ev.violation(format!("backpressure:ffi_refused_but_{}", got.class()), format!("FfiChannel refused request #{k} but its callback got {got:?}"), rep.clone());
+            }
+            if seen.contains(&(k as u16)) {
+                ev.violation("backpressure:refused_request_transmitted", format!("request #{k} was refused by FfiChannel and transmitted anyway"), rep.clone());
+            }
+            continue;
+        }
+        accepted += 1;
+        let want = Res::Regs(vec![(k as u16, k as u16), (k as u16 + 1, !(k as u16))]);
+        if got != want {
+            ev.violation(
+                format!("backpressure:{}:waiting_sender_got_{}", style.name(), got.class()),
+                format!("request #{k} of {nreq} ({}, queue capacity {cap}, peer answers everything) completed with {got:?}", style.name()),
+                rep.clone(),
+            );
+        } else {
+            ev.class(format!("backpressure|{}|ok|queue={cap}", style.name()));
+        }
+    }
+    let mut sorted = seen.clone();
+    sorted.sort();
+    sorted.dedup();
+    if sorted.len() != seen.len() || seen.len() != accepted {
+        ev.violation(
+            "backpressure:transmitted_frames_differ_from_accepted_requests",
+            format!("{accepted} requests accepted, {} frames transmitted ({} distinct)", seen.len(), sorted.len()),
+            rep.clone(),
+        );
+    }
+    if nreq > cap + 1 {
+        ev.count("backpressure_sessions_exceeding_queue", 1);
+    }
+}
+
 fn ev_name(e: &Ev) -> &'static str {
     match e {
         Ev::Submit { style, .. } => match style {
@@ -720,6 +856,10 @@ pub fn run(args: &Args) -> i32 {
     for p in parallel(args.jobs, scripts, Evidence::new, |n, ev| run_script(seed, n, ev)) {
         ev.merge(p);
     }
+    let bp = args.tier.pick(40_000u64, 1_000_000);
+    for p in parallel(args.jobs, bp, Evidence::new, |n, ev| run_backpressure(seed, n, ev)) {
+        ev.merge(p);
+    }
     // real schedules: the production TCP client task under multi-thread stress (net engine)
     {
         let exe = std::env::current_exe().ok().and_then(|p| p.parent().map(|d| d.join("vnet")));
@@ -741,13 +881,15 @@ pub fn run(args: &Args) -> i32 {
             _ => ev.inconclusive("vnet binary not found next to vsim"),
         }
     }
+    // the serial client's error for requests submitted while a lost port is being re-opened (pty)
+    crate::util::merge_net_leg(&mut ev, args, "c10serial");
     let meta = Meta {
         property_id: "C10",
         level: "exploration",
         rule: "one evaluation = one random event script (5-40 events over submit via Channel/CallbackSession/FfiChannel on any handle, matching/stale/wrong-function/exception/partial replies, garbage header, read error, EOF, write error, enable, disable, set-decode, shutdown, clone/drop handle, abort task, advance virtual time around the deadlines; queue sizes 1-16; refused/accepted connections) driven against the production client loop; each event is run to quiescence, then time is advanced past every deadline, all handles dropped and the task joined. Oracle: per request exactly one completion and a result class inside the set a sequential reference of the stated client semantics allows. distinct = (api, result class); reference (state x event) pairs visited are reported".into(),
         assumptions: vec![
             "outer connect/wait loop is composed from hooked primitives in the order of TcpChannelTask::run_inner (harness code); the real task is exercised in C13/C14".into(),
-            "scripts never make a blocking sender wait on a full queue (try_send on a full queue is exercised)".into(),
+            "event scripts never make a blocking sender wait on a full queue; that is the back-pressure leg (2-41 concurrent submitters on queues of 1-4 slots, peer answers everything: every blocking sender must be served Ok, only FfiChannel may refuse)".into(),
             "a request queued at the exact instant a wait elapses may be failed with no-connection or served".into(),
         ],
         exhaustive: None,
@@ -755,6 +897,7 @@ pub fn run(args: &Args) -> i32 {
             ("requests_tracked".into(), args.tier.pick(1_500_000, 40_000_000)),
             ("distinct_reference_state_x_event_pairs".into(), 0),
             ("net_requests".into(), args.tier.pick(20_000, 700_000)),
+            ("backpressure_sessions_exceeding_queue".into(), args.tier.pick(20_000, 500_000)),
         ],
         min_classes: 18,
     };
